@@ -1,6 +1,7 @@
 package transport
 
 import (
+	"time"
 	"net"
 
 	"hop.computer/hop/certs"
@@ -354,6 +355,13 @@ func c02Driver(prop string) {
 		var k keys.KEMPublicKey = &hsKemPub{b: verifFreshBytes("server-kem", KemKeyLen)}
 		c.config.ServerKEMKey = &k
 	}
+	// handshake time limit: none, a timeout, an absolute deadline, or both
+	if verifBool("handshake-timeout-configured") {
+		c.config.HSTimeout = 5 * time.Second
+	}
+	if verifBool("handshake-deadline-configured") {
+		c.config.HSDeadline = time.Unix(int64(verifU32("handshake-deadline")), 0)
+	}
 	c.state.Store(clientStateHandshaking)
 	err := c.clientHandshakeLocked()
 	if err != nil {
@@ -366,4 +374,13 @@ func c02Driver(prop string) {
 	verifAssert(verifAnd(c02Exchange.hiddenCalls == 1, c02Exchange.discCalls == 0) == hidden, prop+": exactly the configured mode's exchange ran")
 	verifAssert(c.ss != nil && c.ss.readKey == &c.ss.serverToClientKey && c.ss.writeKey == &c.ss.clientToServerKey, prop+": the client reads with the server-to-client key and writes with the client-to-server key")
 	verifAssert(c.ss.isHiddenHS == hidden, prop+": the session remembers its handshake mode")
+	verifAssert(!u.deadlineArmed, prop+": no handshake deadline is left armed on the socket of an established session (however the limit was configured), or everything the peer sends after that instant is lost")
 }
+
+//verif:prop C03
+//verif:replay none
+//verif:stub (*hop.computer/hop/transport.Client).beginPQHiddenHandshake = c02BeginHidden
+//verif:stub (*hop.computer/hop/transport.Client).beginPQDiscoverableHandshake = c02BeginDiscoverable
+//verif:bounds as VH_C02_client_driver_succeeds_only_if_the_exchange_did; handshake time limit configured as none / timeout / absolute deadline / both
+//verif:cover completed;aborted
+func VH_C03_established_client_session_has_no_handshake_deadline_armed() { c02Driver("C03") }
